@@ -10,10 +10,10 @@
 
 using namespace sim;
 
-enum { W_INSERT = 0, W_FOI, W_ERASE, W_FIND, W_VERIFY, W_ITER, W_GRACE, W_ANNOUNCE, R_FIND, OP_N };
-static const char *op_names[OP_N] = {"insert", "find_or_insert", "erase", "wfind", "verify_all", "iterate", "grace", "announce", "find"};
+enum { W_INSERT = 0, W_FOI, W_ERASE, W_FIND, W_VERIFY, W_ITER, W_GRACE, W_ANNOUNCE, R_FIND, W_SWEEP, OP_N };
+static const char *op_names[OP_N] = {"insert", "find_or_insert", "erase", "wfind", "verify_all", "iterate", "grace", "announce", "find", "sweep"};
 
-static int P_case1, P_case2, P_case3, P_split_top, P_find_during_split, P_reader_found, P_reader_null, P_mustfind_checked, P_reinserts, P_erased_never_destroyed, P_skipped, P_grace_ok, P_grace_fail, P_iter, P_foi_present, P_stale_found_erased, P_lifetime_anomaly, P_plain, P_val_dtor_in_run, P_ptrmode, P_alignmode;
+static int P_case1, P_case2, P_case3, P_split_top, P_find_during_split, P_reader_found, P_reader_null, P_mustfind_checked, P_reinserts, P_erased_never_destroyed, P_skipped, P_grace_ok, P_grace_fail, P_iter, P_foi_present, P_stale_found_erased, P_lifetime_anomaly, P_plain, P_val_dtor_in_run, P_ptrmode, P_alignmode, P_sweep, P_sweep_big;
 
 struct Ins { uint64_t key, seq; char *addr; uint64_t inv, ret; uint32_t ret_wclk; uint64_t erase_inv, erase_ret; };
 struct Blk { char *p; size_t n; bool freed; };
@@ -44,6 +44,7 @@ struct RadixEngine : Engine {
 		if (!r || !recs.count(r)) { memset(&v, 0, sizeof v); v.key = (uint64_t)(uintptr_t)r; return false; }
 		memcpy(&v, r, sizeof v); return true;
 	}
+	std::map<const char *, uint64_t> present_addr; // address of every present key's value
 	std::set<const char *> alive; // mode 0: value objects whose constructor has run and whose destructor has not
 	void val_ctor(void *p) { alive.insert((const char *)p); }
 	void val_dtor(void *p) { if (!destroyed) probe(P_val_dtor_in_run); alive.erase((const char *)p); }
@@ -57,7 +58,7 @@ struct RadixEngine : Engine {
 		P_reinserts = probe_id("reinsert_after_grace"); P_erased_never_destroyed = probe_id("erased_value_never_destroyed"); P_skipped = probe_id("ops_skipped_precondition");
 		P_grace_ok = probe_id("grace_period_completed"); P_grace_fail = probe_id("grace_period_gave_up"); P_iter = probe_id("iterations"); P_foi_present = probe_id("find_or_insert_on_present_key");
 		P_stale_found_erased = probe_id("relaxed_reader_found_erased_value"); P_lifetime_anomaly = probe_id("node_lifetime_anomaly(C16_radix_clause:not_claimed,not_reported)");
-		P_plain = probe_id("runs_with_argument-less_insert_of_a_plain_value_type"); P_val_dtor_in_run = probe_id("value_destructor_ran_while_the_tree_was_in_use"); P_ptrmode = probe_id("runs_with_a_raw_pointer_value_type"); P_alignmode = probe_id("runs_with_an_over-aligned_value_type");
+		P_plain = probe_id("runs_with_argument-less_insert_of_a_plain_value_type"); P_val_dtor_in_run = probe_id("value_destructor_ran_while_the_tree_was_in_use"); P_ptrmode = probe_id("runs_with_a_raw_pointer_value_type"); P_alignmode = probe_id("runs_with_an_over-aligned_value_type"); P_sweep = probe_id("sweep:many_adjacent_leaves_emptied_then_iterated_and_partly_refilled"); P_sweep_big = probe_id("sweep:more_than_10000_adjacent_emptied_leaves");
 	}
 	const char *name() override { return "simradix"; }
 	const char *op_name(int k) override { return k >= 0 && k < OP_N ? op_names[k] : "?"; }
@@ -124,20 +125,32 @@ struct RadixEngine : Engine {
 			else o.kind = W_ANNOUNCE;
 			p.ops.push_back(o);
 		}
+		if (c09) { // long runs of adjacent leaves that become completely empty (they are never unlinked), iterated over and partly refilled
+			Rng sr; sr.seed(p.seed ^ 0x53574550ull);
+			bool big = sr.chance(1, tier ? 6000 : 30000);
+			if (big || sr.chance(1, 150)) {
+				Op o; o.task = 1; o.id = id++; o.kind = W_SWEEP;
+				o.a[0] = (int64_t)(U[sr.below(U.size())] & ~0xFFFFFull); o.a[1] = big ? 14000 + (int64_t)sr.below(6000) : 66 + (int64_t)sr.below(100); o.a[2] = (int64_t)sr.below(16); o.a[3] = big ? 0 : (int64_t)sr.below(3);
+				p.ops.insert(p.ops.begin() + (long)sr.below(p.ops.size() + 1), o);
+				if (big) { p.knobs["sweep_big"] = 1; p.knobs["cap1"] = 80000000; }
+			}
+		}
 		for (int t = 2; t <= p.ntasks; t++) {
 			int n = 3 + (int)rng.below(tier ? 60 : 25);
 			for (int i = 0; i < n; i++) { Op o; o.task = t; o.id = i; o.kind = R_FIND; o.a[0] = key(); o.a[1] = rng.chance(1, 5); p.ops.push_back(o); }
 		}
 		if (c09 && rng.chance(1, 4)) p.knobs["plain"] = 1; // plain value type, inserted without constructor arguments
 		{ Rng vr; vr.seed(p.seed ^ 0x50545256ull); if (!p.knobs.count("plain")) { if (vr.chance(1, 6)) p.knobs["vmode"] = 2; else if (vr.chance(1, 8)) p.knobs["vmode"] = 3; } } // value type is a raw pointer / over-aligned
+		if (p.knobs.count("sweep_big")) { p.knobs["vmode"] = 2; p.knobs.erase("plain"); } // 8-byte values: tens of thousands of leaves must fit into the object zone
 		pick_strategy(rng, p, !c09);
 	}
 
 	void setup(const Plan &p) override {
 		profile = p.profile;
-		ins.clear(); present.clear(); by_key.clear(); erase_gen.clear(); universe.clear(); blks.clear();
+		ins.clear(); present.clear(); present_addr.clear(); by_key.clear(); erase_gen.clear(); universe.clear(); blks.clear();
 		evseq = 0; gp_gen = 1; nreaders = p.ntasks - 1; destroyed = false; allocs_in_op = 0;
-		for (auto &o : p.ops) if (o.kind != W_VERIFY && o.kind != W_ITER && o.kind != W_GRACE && o.kind != W_ANNOUNCE) universe.insert((uint64_t)o.a[0]);
+		for (auto &o : p.ops) if (o.kind != W_VERIFY && o.kind != W_ITER && o.kind != W_GRACE && o.kind != W_ANNOUNCE && o.kind != W_SWEEP) universe.insert((uint64_t)o.a[0]);
+		for (auto &o : p.ops) if (o.kind == W_SWEEP && o.a[1] <= 512) for (int64_t i = 0; i < o.a[1]; i++) universe.insert(sweep_key(o, i));
 		for (int t = 0; t < MAXT; t++) { inflight[t] = false; opcount[t] = 0; rdone[t] = false; rchan[t].clear(); }
 		gp_chan.clear(); ann_chan.clear();
 		plain = p.knob("plain", 0) != 0 && p.ntasks == 1; alive.clear(); recs.clear(); nfinds = 0; if (plain) probe(P_plain);
@@ -147,6 +160,7 @@ struct RadixEngine : Engine {
 	}
 
 	void *do_alloc(size_t n) {
+		sync_hook(); // a call into the allocator is a visible action (a preemption point between the tree's accesses before and after it)
 		char *p = (char *)obj_alloc(n, std::max<size_t>(16, sut_value_align(vmode))); // (the Allocator concept has no alignment argument: an allocator for over-aligned values returns suitably aligned blocks)
 		blks.push_back({p, n, false});
 		allocs_in_op++;
@@ -154,14 +168,16 @@ struct RadixEngine : Engine {
 	}
 	// Node and value lifetimes are the radix clause of C16, which is not claimed (DESIGN.md §3.3/§4): anomalies are counted
 	// as a probe and never reported — C09 and C10 say nothing about what the destructor frees.
+	// (blocks come from a bump allocator: blks is sorted by address)
+	Blk *blk_at(const char *p) { auto it = std::upper_bound(blks.begin(), blks.end(), p, [](const char *v, const Blk &b) { return v < b.p; }); if (it == blks.begin()) return nullptr; --it; return p < it->p + it->n ? &*it : nullptr; }
 	void do_free(void *p, size_t n) {
-		for (auto &b : blks) if (b.p == p) {
-			if (b.freed || (n && n != b.n)) probe(P_lifetime_anomaly);
-			b.freed = true; return;
-		}
-		probe(P_lifetime_anomaly);
+		if (!destroyed) sync_hook();
+		Blk *b = blk_at((const char *)p);
+		if (!b || b->p != p) { probe(P_lifetime_anomaly); return; }
+		if (b->freed || (n && n != b->n)) probe(P_lifetime_anomaly);
+		b->freed = true;
 	}
-	bool in_node(const char *p) { for (auto &b : blks) if (!b.freed && p >= b.p && p + vsize() <= b.p + b.n) return true; return false; }
+	bool in_node(const char *p) { Blk *b = blk_at(p); return b && !b->freed && p + vsize() <= b->p + b->n; }
 
 	void check_value(const char *what, char *p, uint64_t k, uint64_t seq) {
 		if (!in_arena(p) || !in_node(p)) violation("map_wrong_result", "%s: returned pointer %p is not inside a node the tree allocated", what, p);
@@ -198,7 +214,7 @@ struct RadixEngine : Engine {
 		by_key[k].push_back(idx);
 		allocs_in_op = 0;
 		bool top_differs = !present.empty();
-		for (auto &kv : present) if ((kv.first >> 60) == (k >> 60)) top_differs = false;
+		{ auto it = present.lower_bound(k & (0xFull << 60)); if (it != present.end() && (it->first >> 60) == (k >> 60)) top_differs = false; }
 		bool reader_inflight = false; for (int t = 2; t <= nreaders + 1; t++) reader_inflight |= inflight[t];
 		char *p; char *rec = nullptr;
 		if (vmode == 2) { RVal v{k, ins[idx].seq, ~k ^ ins[idx].seq}; rec = (char *)obj_alloc(sizeof v, 8); memcpy(rec, &v, sizeof v); recs.insert(rec); }
@@ -210,7 +226,7 @@ struct RadixEngine : Engine {
 		ins[idx].addr = p; ins[idx].ret = ++evseq; ins[idx].ret_wclk = my_clock().c[1];
 		if (allocs_in_op == 1) probe(P_case1); else if (allocs_in_op == 2) { probe(P_case2); if (top_differs) probe(P_split_top); if (reader_inflight) probe(P_find_during_split); } else probe(P_case3);
 		if (!p) violation("map_wrong_result", "insert(0x%llx) returned null", (unsigned long long)k);
-		for (auto &kv : present) if (ins[kv.second].addr == p) violation("map_duplicate_value", "insert(0x%llx) returned +0x%llx which is the address of present key 0x%llx", (unsigned long long)k, (unsigned long long)off(p), (unsigned long long)kv.first);
+		{ auto pa = present_addr.find(p); if (pa != present_addr.end() && present.count(pa->second)) violation("map_duplicate_value", "insert(0x%llx) returned +0x%llx which is the address of present key 0x%llx", (unsigned long long)k, (unsigned long long)off(p), (unsigned long long)pa->second); }
 		if (plain) {
 			// inserted without constructor arguments: a NEW value-initialised object, whatever the slot held before; the user fills it in
 			if (!in_arena(p) || !in_node(p)) violation("map_wrong_result", "insert: returned pointer %p is not inside a node the tree allocated", p);
@@ -219,9 +235,20 @@ struct RadixEngine : Engine {
 			RVal v{k, ins[idx].seq, ~k ^ ins[idx].seq}; user_write(p, sizeof v); memcpy(p, &v, sizeof v);
 		}
 		check_value("insert", p, k, ins[idx].seq);
-		present[k] = idx; erase_gen.erase(k);
+		present[k] = idx; erase_gen.erase(k); present_addr[p] = k;
 	}
 
+	static uint64_t sweep_key(const Op &o, int64_t i) { return (uint64_t)o.a[0] + (uint64_t)i * (16ull << (4 * (o.a[3] % 3))); } // one key per leaf (stride 16, 256 or 4096)
+	void do_erase(uint64_t k) {
+		auto it = present.find(k);
+		if (it == present.end()) return;
+		Ins &I = ins[it->second];
+		I.erase_inv = ++evseq;
+		sut_erase(tree, k);
+		I.erase_ret = ++evseq;
+		present_addr.erase(I.addr);
+		present.erase(it); erase_gen[k] = gp_gen;
+	}
 	void verify_all(const char *what) { for (uint64_t k : universe) writer_find_check(what, k); }
 
 	struct IterCtx { RadixEngine *e; std::vector<char *> got; };
@@ -310,14 +337,21 @@ struct RadixEngine : Engine {
 				check_value("find_or_insert(present)", p, k, I.seq);
 			} else do_insert(k, true);
 			break;
-		case W_ERASE: {
-			auto it = present.find(k);
-			if (it == present.end()) { probe(P_skipped); return; }
-			Ins &I = ins[it->second];
-			I.erase_inv = ++evseq;
-			sut_erase(tree, k);
-			I.erase_ret = ++evseq;
-			present.erase(it); erase_gen[k] = gp_gen;
+		case W_ERASE:
+			if (!present.count(k)) { probe(P_skipped); return; }
+			do_erase(k);
+			break;
+		case W_SWEEP: {
+			if (nreaders) { probe(P_skipped); return; } // sequential configuration only (a grace period is then trivial)
+			int64_t K = op.a[1]; int fl = (int)op.a[2];
+			probe(P_sweep); if (K > 10000) probe(P_sweep_big);
+			for (int64_t i = 0; i < K; i++) { uint64_t x = sweep_key(op, i); if (!present.count(x)) do_insert(x, false); progress(); }
+			for (int64_t i = (fl & 1) ? 1 : 0; i < K - 1; i++) { do_erase(sweep_key(op, i)); progress(); }
+			do_iterate();
+			gp_gen++; // no readers: every find that could hold an erased value has returned
+			for (int j = 0; j <= (fl >> 1) % 3 && K > 3; j++) { uint64_t x = sweep_key(op, 1 + (int64_t)((((uint64_t)op.a[0] >> 20) + (uint64_t)j * 7919u) % (uint64_t)(K - 2))); if (!present.count(x)) do_insert(x, (fl & 8) != 0); }
+			do_iterate();
+			for (int64_t i = 0; i < K; i += K > 512 ? K / 64 : 1) writer_find_check("sweep", sweep_key(op, i));
 			break; }
 		case W_FIND: writer_find_check("find", k); break;
 		case W_VERIFY: verify_all("verify"); break;
@@ -356,6 +390,7 @@ struct RadixEngine : Engine {
 		std::vector<Op> v;
 		if (o.kind == R_FIND && o.a[1]) { Op c = o; c.a[1] = 0; v.push_back(c); }
 		if (o.kind == W_FOI) { Op c = o; c.kind = W_INSERT; v.push_back(c); }
+		if (o.kind == W_SWEEP) { if (o.a[1] > 8) { Op c = o; c.a[1] = o.a[1] / 2; v.push_back(c); Op d = o; d.a[1] = o.a[1] - 1; v.push_back(d); } if (o.a[2]) { Op c = o; c.a[2] = 0; v.push_back(c); } }
 		return v;
 	}
 };
